@@ -46,6 +46,9 @@ class Resolver:
                     outs = []
                     for d in real:
                         if d.kind == "funcdef":
+                            t = self._closure_wrapper(d.value, mi, cfg, d.node, depth)
+                            if t is not None and len(real) == 1:
+                                return t
                             return Target(None, chain=[f"local def {e.id}"])
                         if d.kind != "assign":
                             return None
@@ -100,8 +103,8 @@ class Resolver:
             # factory: repo function whose single return value is itself a resolvable callable
             if fq and fq.startswith(self.repo.PKG + ".") and self._is_func(fq):
                 fn = self.repo.func(fq)
-                rets = [n for n in ast.walk(fn) if isinstance(n, ast.Return) and n.value is not None]
-                if len(rets) == 1 and isinstance(rets[0].value, ast.Call):
+                rets = [n for n in ast.walk(fn) if isinstance(n, ast.Return) and n.value is not None and not any(isinstance(p_, ast.FunctionDef) and p_ is not fn and any(x is n for x in ast.walk(p_)) for p_ in ast.walk(fn))]
+                if len(rets) == 1 and isinstance(rets[0].value, (ast.Call, ast.Name)):
                     c2 = self.cfg_of(fn)
                     try:
                         node = c2.node_of(rets[0])
@@ -115,6 +118,40 @@ class Resolver:
                         return t
             return None
         return None
+
+    def _closure_wrapper(self, g: ast.FunctionDef, mi, cfg, at, depth):
+        """A nested `def g(p1..pk): return F(a1..am, p1..pk)` (decorated with jit or not) is F with (a1..am) bound, like partial(F, a1..am)."""
+        from .repo import positional_params
+        if not isinstance(g, ast.FunctionDef):
+            return None
+        body = [x for x in g.body if not (isinstance(x, ast.Expr) and isinstance(x.value, ast.Constant))]
+        if len(body) != 1 or not isinstance(body[0], ast.Return) or not isinstance(body[0].value, ast.Call):
+            return None
+        call = body[0].value
+        t = self.resolve(call.func, mi, cfg, at, depth + 1)
+        if t is None or not t.qual:
+            return None
+        gp = positional_params(g)
+        try:
+            F = self.repo.func(t.qual)
+        except Exception:
+            return None
+        fp = positional_params(F)
+        bound = {}
+        pos = list(t.prefix) + list(call.args)
+        if any(isinstance(a, ast.Starred) for a in pos) or any(k.arg is None for k in call.keywords):
+            return None
+        for pn, a in zip(fp, pos):
+            bound[pn] = a
+        for k in call.keywords:
+            bound[k.arg] = k.value
+        bound.update(t.kwargs)
+        # parameters of F that receive g's own parameters stay free; the others are bound; the bound ones must form a leading prefix
+        free = [pn for pn in fp if pn in bound and isinstance(bound[pn], ast.Name) and bound[pn].id in gp]
+        fixed = [pn for pn in fp if pn in bound and pn not in free]
+        if fixed != fp[:len(fixed)] or [bound[pn].id for pn in free] != gp[:len(free)] or len(free) != len(gp):
+            return None
+        return Target(t.qual, [bound[pn] for pn in fixed], {}, t.chain + [f"closure {g.name}"])
 
     def _is_func(self, qual: str) -> bool:
         try:
